@@ -201,6 +201,25 @@ func tamperings(rng *rand.Rand, d *Dag, m *admModel, c *DagEvent, stranger *SimK
 			break
 		}
 	}
+	// first events: a creator without any event yet claims a foreign or unknown
+	// self-parent, with an index that is consistent with that claim
+	if c.Body.Parents[0] == "" {
+		for oc := range m.last {
+			if oc != pubHexUpper(key2hex(d, c.Creator)) && m.last[oc] != "" {
+				o := m.last[oc]
+				oi := m.known[o].Index()
+				mk("first event naming another creator's event as self-parent, index continuing from it, re-signed", func(b *hg.EventBody) { b.Parents[0] = o; b.Index = oi + 1 }, true, nil)
+				break
+			}
+		}
+		for _, idx := range []int{0, 1, 5, -3} {
+			ix := idx
+			mk(fmt.Sprintf("first event naming an unknown hash as self-parent, index %d, re-signed", ix), func(b *hg.EventBody) {
+				b.Parents[0] = "0X" + fmt.Sprintf("%064X", rng.Int63())
+				b.Index = ix
+			}, true, nil)
+		}
+	}
 	mk("other-parent unknown hash, re-signed", func(b *hg.EventBody) { b.Parents[1] = "0X" + fmt.Sprintf("%064X", rng.Int63()) }, true, nil)
 	mk("other-parent malformed string, re-signed", func(b *hg.EventBody) { b.Parents[1] = "zz" }, true, nil)
 	// foreign creator
@@ -355,13 +374,17 @@ func runC07(cs CaseSpec) *CaseResult {
 	kinds := map[string]bool{}
 	for i, de := range d.Events {
 		// hostile attempts before inserting the i-th valid event
-		if attempts < maxAttempts && i > 0 && rng.Intn(attemptEvery+1) == 0 {
+		firstOfCreator := de.Body.Parents[0] == ""
+		if (attempts < maxAttempts && i > 0 && rng.Intn(attemptEvery+1) == 0) || (firstOfCreator && i > 0) {
 			tcs := tamperings(rng, d, m, de, stranger, allowNil)
 			for _, ti := range rng.Perm(len(tcs)) {
-				if attempts >= maxAttempts {
+				if attempts >= maxAttempts && !firstOfCreator {
 					break
 				}
 				tc := tcs[ti]
+				if firstOfCreator && attempts >= maxAttempts && !containsStr(tc.name, "first event") {
+					continue
+				}
 				adm, why := m.admissible(tc.ev)
 				if adm {
 					res.count("admission_tamperings_that_are_admissible_skipped", 1)
